@@ -1,7 +1,7 @@
 #!/bin/sh
 # tools/thorough_private.sh [props…] — run the thorough tier of the given (default: all) checks in a private copy of
 # /verif and /repo under /root/thor, so that /repo can be used for other things meanwhile. Results: /root/thor.log
-T=/root/thor; mkdir -p $T
+T="${THOR_DIR:-/root/thor}"; mkdir -p $T
 rsync -a --delete --exclude .git --exclude work --exclude replays --exclude harness/target --exclude lean/.lake /verif/ $T/verif/
 rsync -a --delete --exclude target /repo/ $T/repo/
 git -C $T/repo checkout -q -- .
